@@ -33,8 +33,8 @@ func (t *schedulerTask) Name() string {
 
 // Next 获取任务下一次执行的时间
 func (t *schedulerTask) Next(prev time.Time) time.Time {
-	t.lock.RLock()
-	defer t.lock.RUnlock()
+	t.lock.Lock()
+	defer t.lock.Unlock()
 
 	if t.kill || (t.total > 0 && t.trigger >= t.total) {
 		if t.expr == nil {
